@@ -18,6 +18,8 @@ pub enum St {
     Live,
     DroppedByCaller,
     DestroyedByLibrary,
+    /// plain data without a destructor: the ledger never hears of its end
+    Plain,
 }
 
 #[derive(Default)]
@@ -192,9 +194,13 @@ pub enum Kind {
     DerefHashMap,
     DerefDefault,
     DerefNull,
+    /// DenseVecStorage of a component type without drop glue
+    PlainDense,
+    /// FlaggedStorage<_, DenseVecStorage<_>> of a component type without drop glue
+    PlainFlagDense,
 }
 
-pub const ALL_KINDS: [Kind; 18] = [
+pub const ALL_KINDS: [Kind; 20] = [
     Kind::Vec,
     Kind::Dense,
     Kind::DefaultVec,
@@ -213,6 +219,8 @@ pub const ALL_KINDS: [Kind; 18] = [
     Kind::DerefHashMap,
     Kind::DerefDefault,
     Kind::DerefNull,
+    Kind::PlainDense,
+    Kind::PlainFlagDense,
 ];
 
 impl Kind {
@@ -234,6 +242,7 @@ impl Kind {
                 | Kind::DerefHashMap
                 | Kind::DerefDefault
                 | Kind::DerefNull
+                | Kind::PlainFlagDense
         )
     }
     pub fn deref_flagged(self) -> bool {
@@ -241,6 +250,44 @@ impl Kind {
     }
     pub fn zst(self) -> bool {
         matches!(self, Kind::Null | Kind::FlaggedNull | Kind::DerefNull)
+    }
+}
+
+/// Instrumented payload without a destructor (`needs_drop::<PVal>()` is false): unique serial and
+/// canary like `Val`, but the ledger only knows that it exists.
+pub struct PVal {
+    serial: u64,
+    canary: u64,
+    pub payload: u32,
+}
+
+impl PVal {
+    pub fn new(payload: u32) -> PVal {
+        let serial = with_ledger(|l| {
+            l.state.push((St::Plain, false));
+            l.state.len() as u64
+        });
+        PVal { serial, canary: serial ^ MAGIC, payload }
+    }
+    pub fn serial(&self) -> u64 {
+        self.serial
+    }
+    pub fn check(&self) -> Result<u64, String> {
+        let serial = unsafe { std::ptr::read_volatile(&self.serial) };
+        let canary = unsafe { std::ptr::read_volatile(&self.canary) };
+        if canary != serial ^ MAGIC {
+            return Err(format!("plain value has a corrupt canary (serial field {}, canary {:#x}): slot never written or overwritten", serial, canary));
+        }
+        match with_ledger(|l| l.state.get((serial as usize).wrapping_sub(1)).map(|s| s.0)) {
+            Some(St::Plain) => Ok(serial),
+            other => Err(format!("plain value with serial {} exposed, ledger says {:?}", serial, other)),
+        }
+    }
+}
+
+impl Default for PVal {
+    fn default() -> Self {
+        PVal::new(0)
     }
 }
 
@@ -297,6 +344,34 @@ zoo_comp!(CFlagBTree, Kind::FlaggedBTree, FlaggedStorage<Self, BTreeStorage<Self
 zoo_comp!(CFlagDefault, Kind::FlaggedDefault, FlaggedStorage<Self, DefaultVecStorage<Self>>);
 zoo_comp!(CDerefHash, Kind::DerefHashMap, DerefFlaggedStorage<Self, HashMapStorage<Self>>);
 zoo_comp!(CDerefDefault, Kind::DerefDefault, DerefFlaggedStorage<Self, DefaultVecStorage<Self>>);
+
+macro_rules! plain_comp {
+    ($name:ident, $kind:expr, $storage:ty) => {
+        #[derive(Default)]
+        pub struct $name(pub PVal);
+        impl Component for $name {
+            type Storage = $storage;
+        }
+        impl ZooComp for $name {
+            const KIND: Kind = $kind;
+            fn make(payload: u32) -> Self {
+                $name(PVal::new(payload))
+            }
+            fn ident(&self) -> (u64, u32) {
+                (self.0.serial(), self.0.payload)
+            }
+            fn set_payload(&mut self, p: u32) {
+                self.0.payload = p;
+            }
+            fn check(&self) -> Result<(), String> {
+                self.0.check().map(|_| ())
+            }
+        }
+    };
+}
+
+plain_comp!(CPlainDense, Kind::PlainDense, DenseVecStorage<Self>);
+plain_comp!(CPlainFlagDense, Kind::PlainFlagDense, FlaggedStorage<Self, DenseVecStorage<Self>>);
 
 /// Zero-sized components (for `NullStorage`, bare and inside the tracking wrappers); instances are
 /// counted, not individually tracked.
@@ -388,6 +463,8 @@ macro_rules! with_kind {
             $crate::zoo::Kind::DerefHashMap => $f::<$crate::zoo::CDerefHash>($($args),*),
             $crate::zoo::Kind::DerefDefault => $f::<$crate::zoo::CDerefDefault>($($args),*),
             $crate::zoo::Kind::DerefNull => $f::<$crate::zoo::CDerefNull>($($args),*),
+            $crate::zoo::Kind::PlainDense => $f::<$crate::zoo::CPlainDense>($($args),*),
+            $crate::zoo::Kind::PlainFlagDense => $f::<$crate::zoo::CPlainFlagDense>($($args),*),
         }
     };
 }
